@@ -352,7 +352,19 @@ class ProgGen:
             out.append(self.sp() + v + self.sp() + "=" + self.sp() + self.expr(2) + self.sp() + ";")
             if v not in self.vars:
                 self.vars.append(v)
+        if r.random() < 0.3:
+            # RETURN is an ordinary variable: it may be assigned early, read, and rebound later
+            out.append(self.sp() + "RETURN" + self.sp() + "=" + self.sp() + self.expr(2) + self.sp() + ";")
+            self.vars.append("RETURN")
+            if r.random() < 0.5:
+                v = r.choice(["a", "b"])
+                out.append(self.sp() + v + self.sp() + "=" + self.sp() + self.expr(1) + self.sp() + ";")
+                if v not in self.vars:
+                    self.vars.append(v)
         out.append(self.sp() + "RETURN" + self.sp() + "=" + self.sp() + self.expr(3) + self.sp() + ";")
+        if r.random() < 0.15:
+            v = r.choice(["a", "z"])
+            out.append(self.sp() + v + self.sp() + "=" + self.sp() + self.expr(1) + self.sp() + ";")
         return self.sp().join(out)
 
 
